@@ -245,59 +245,92 @@ def static_tables(ctx, rng, tmp, read_elast_data):
 
 
 def fill_roundtrip(ctx, rng, tmp, read_elast_data):
-    """`cij fill -s SYSTEM FILE`: stdout is a valid static table whose parse equals the symmetry-filled parse of the input."""
+    """`cij fill -s SYSTEM FILE`: stdout is a valid static table whose parse equals the symmetry-filled parse of the input.
+    The symmetry-filled parse is taken from the specification (rows are integer combinations of the invariant-subspace basis exported by
+    C08.tla, so the filled tensor is known exactly), never from the package's own filling."""
     from click.testing import CliRunner
     from cij.cli.fill import main as fill_main
-    from cij.io.traditional.elast_dat import apply_symetry_on_elast_data
+    from cij.util import c_
     exports = fillspec.cached_exports(ctx)
+    keys21 = [(i, j) for i in range(1, 7) for j in range(i, 7)]
+    vols = [600.1234, 550.5071, 500.2509]
+    fac = [Fraction(1003, 1000), Fraction(987, 1000), Fraction(1021, 1000)]   # three-decimal factors on (half-)integer tensors: payloads with four decimals
     for s in fillspec.SYSTEMS:
-        e = exports[s]
-        tensors = [[Fraction(x[0], x[1]) for x in t] for t in e["tensors"]]
-        van = set(e["vanishing"])
-        supplied = [n for n in range(1, 22) if n not in van]
-        if s != "triclinic":
-            supplied = supplied[:max(len(supplied) - 0, 1)]
-        lat = bool(rng.random() < 0.6)
-        lines = [f"static table for {s}", "612.5 3 101.25", "V " + " ".join(SYMS[n - 1] for n in supplied)]
-        vols = [600.1234, 550.5071, 500.2509]
-        fac = [1.003, 0.987, 1.021]              # three-decimal factors on (half-)integer tensors: payloads with four decimals, relations preserved
-        for i, t in enumerate(tensors):
-            lines.append(f"{vols[i]:.4f} " + " ".join(f"{float(t[n - 1]) * fac[i]:.4f}" for n in supplied))
-        if lat:
-            lines.append("lattice")
-            for i in range(3):
-                lines.append(f"{1.0 + i:.4f} {2.0 + i:.4f} {3.0 + i:.4f}")
-        if rng.random() < 0.5:
-            lines[0] = f"static table for {s} \u2014 V in \u00c5\u00b3, MgSiO\u2083"        # header lines are free text (UTF-8)
-        f = tmp / "fill_in.dat"
-        f.write_text("\n".join(lines) + "\n", encoding="utf8")
-        ctx.count({"fill_cli": s, "lat": lat, "non_ascii_header": not lines[0].isascii()})
-        r = CliRunner().invoke(fill_main, ["-s", s, str(f)])
-        if r.exit_code != 0:
-            ctx.violation(f"cij fill -s {s} failed on a consistent fully supplied table: {r.exception!r}", {"input": "\n".join(lines)}, {"clause": "fill_cli_fails", "system": s})
-            continue
-        g = tmp / "fill_out.dat"
-        g.write_text(r.output, encoding="utf8")
-        try:
-            out = read_elast_data(str(g))
-        except Exception as ex:
-            ctx.violation(f"output of cij fill -s {s} is not a valid static table: {ex!r}", {"output": r.output}, {"clause": "fill_output_invalid", "system": s})
-            continue
-        ref = read_elast_data(str(f))
-        if s != "triclinic":
-            apply_symetry_on_elast_data(ref, {"system": s})
-        bad = None
-        if (out.vref, out.nv, out.cellmass) != (ref.vref, ref.nv, ref.cellmass) or r.output.splitlines()[0] != lines[0]:
-            bad = "header lines"
-        elif [v.volume for v in out.volumes] != [v.volume for v in ref.volumes]:
-            bad = "volumes"
-        elif [tuple(x) for x in out.lattice_parmeters] != [tuple(x) for x in ref.lattice_parmeters]:
-            bad = "lattice block"
-        else:
-            for a, b in zip(out.volumes, ref.volumes):
-                if set(a.static_elastic_modulus) != set(b.static_elastic_modulus) or \
-                        any(not abs(a.static_elastic_modulus[k] - b.static_elastic_modulus[k]) <= 2e-5 for k in b.static_elastic_modulus):
-                    bad = "components"
-        if bad:
-            ctx.violation(f"cij fill -s {s}: {bad} of the output differ from the filled parse of the input", {"input": "\n".join(lines), "output": r.output},
-                          {"clause": "fill_roundtrip", "system": s, "what": bad})
+        for variant in ("exported", "touching_zero", "subset"):
+            e = exports[s]
+            van = set(e["vanishing"])
+            null = [[Fraction(x[0], x[1]) for x in v] for v in e["null"]]
+            if variant == "exported":
+                rows = [[Fraction(x[0], x[1]) for x in t] for t in e["tensors"]]
+            else:
+                # integer combinations; one basis tensor enters with the coefficients (-2, -1, 0) / (2, 1, 0) over the three volumes, so
+                # the components that only it feeds are one-signed and vanish at exactly one volume
+                k0 = int(rng.integers(0, len(null)))
+                sg = int(rng.choice([-1, 1]))
+                coef = [[int(rng.integers(2, 9)) * int(rng.choice([-1, 1])) for _ in null] for _ in range(3)]
+                for i, c0 in enumerate((2, 1, 0)):
+                    coef[i][k0] = sg * c0
+                rows = [[sum(coef[i][k] * null[k][n] for k in range(len(null))) for n in range(21)] for i in range(3)]
+            rows = [[x * fac[i] for x in r] for i, r in enumerate(rows)]
+            full = [n for n in range(1, 22) if n not in van]
+            supplied = list(full)
+            if variant == "subset" and s != "triclinic":
+                # drop supplied components one at a time while the rest still determines the tensor (rank of the basis restricted to the kept components)
+                import numpy
+                B = numpy.array([[float(x) for x in v] for v in null])
+                for n in [int(x) for x in rng.permutation(full)]:
+                    keep = [m for m in supplied if m != n]
+                    if keep and numpy.linalg.matrix_rank(B[:, [m - 1 for m in keep]], tol=1e-9) == len(null):
+                        supplied = keep
+            lat = bool(rng.random() < 0.6)
+            lines = [f"static table for {s}", "612.5 3 101.25", "V " + " ".join(SYMS[n - 1] for n in supplied)]
+            for i, t in enumerate(rows):
+                lines.append(f"{vols[i]:.4f} " + " ".join(f"{float(t[n - 1]):.4f}" for n in supplied))
+            if lat:
+                lines.append("lattice")
+                for i in range(3):
+                    lines.append(f"{1.0 + i:.4f} {2.0 + i:.4f} {3.0 + i:.4f}")
+            if rng.random() < 0.5:
+                lines[0] = f"static table for {s} \u2014 V in \u00c5\u00b3, MgSiO\u2083"        # header lines are free text (UTF-8)
+            f = tmp / "fill_in.dat"
+            f.write_text("\n".join(lines) + "\n", encoding="utf8")
+            ctx.count({"fill_cli": s, "variant": variant, "lat": lat, "supplied": len(supplied), "non_ascii_header": not lines[0].isascii()})
+            sig = {"system": s, "variant": variant}
+            r = CliRunner().invoke(fill_main, ["-s", s, str(f)])
+            if r.exit_code != 0:
+                ctx.violation(f"cij fill -s {s} failed on a consistent, sufficient table ({variant}): {r.exception!r}", {"input": "\n".join(lines)}, {"clause": "fill_cli_fails", **sig})
+                continue
+            g = tmp / "fill_out.dat"
+            g.write_text(r.output, encoding="utf8")
+            try:
+                out = read_elast_data(str(g))
+                ref = read_elast_data(str(f))
+            except Exception as ex:
+                ctx.violation(f"output of cij fill -s {s} is not a valid static table: {ex!r}", {"output": r.output}, {"clause": "fill_output_invalid", **sig})
+                continue
+            # the filled tensor per volume, from the specification: every component that does not vanish at all volumes
+            present = [n for n in range(1, 22) if any(abs(float(rows[i][n - 1])) > 5e-5 for i in range(3))]
+            want = [{c_(*keys21[n - 1]): float(rows[i][n - 1]) for n in present} for i in range(3)]
+            bad = None
+            if (out.vref, out.nv, out.cellmass) != (ref.vref, ref.nv, ref.cellmass) or r.output.splitlines()[0] != lines[0]:
+                bad = "header lines"
+            elif [v.volume for v in out.volumes] != [v.volume for v in ref.volumes]:
+                bad = "volumes"
+            elif [tuple(x) for x in out.lattice_parmeters] != [tuple(x) for x in ref.lattice_parmeters]:
+                bad = "lattice block"
+            else:
+                for i, a in enumerate(out.volumes):
+                    got = a.static_elastic_modulus
+                    if set(got) != set(want[i]):
+                        bad = f"components present (extra {sorted(str(k) for k in set(got) - set(want[i]))}, missing {sorted(str(k) for k in set(want[i]) - set(got))})"
+                        break
+                    if any(not abs(got[k] - want[i][k]) <= 6e-5 for k in want[i]):
+                        bad = "component values"
+                        break
+                    # supplied values are carried over as printed
+                    if any(not abs(got[k] - ref.volumes[i].static_elastic_modulus[k]) <= 2e-5 for k in ref.volumes[i].static_elastic_modulus if k in got):
+                        bad = "supplied values"
+                        break
+            if bad:
+                ctx.violation(f"cij fill -s {s} ({variant}): {bad} of the output differ from the symmetry-filled parse of the input", {"input": "\n".join(lines), "output": r.output},
+                              {"clause": "fill_roundtrip", **sig, "what": bad.split(" (")[0]})
